@@ -4,7 +4,7 @@ From Coq Require Import List String QArith.
 From Coq Require Import Floats.PrimFloat.
 From PAFCommon Require Import PyNum.
 From PAFC01 Require Import ModelTree.
-From PAFC12 Require Import Gen Model Proofs Proofs2 Proofs3 Proofs4 Proofs5 Proofs6.
+From PAFC12 Require Import Gen Model Proofs Proofs2 Proofs3 Proofs4 Proofs5 Proofs6 Proofs7.
 Import ListNotations.
 Local Open Scope string_scope.
 Local Open Scope list_scope.
@@ -112,3 +112,14 @@ Example wf64_default :
         (MMeans None None false [(-0x1p-1)%float]) wf64 =
   Ok (wf64, [(0%nat, mk FGaussian (-0x1.6p3)%float 0x1.6p3%float (-0x1p-1)%float 0x1p-2%float None)]).
 Proof. vm_compute. reflexivity. Qed.
+
+(* hypotheses of C12_config_own: an unshared tuple member and an unshared direct prior of the Model at path ["g"] *)
+Definition wown : node Q :=
+  NColl [("g", NModel "T2" ["c"; "pos"]
+                 [("c", NPrior 1); ("pos", NTuple [("pos_0", (0%nat, NConst 7)); ("pos_1", (1%nat, NPrior 0))])])].
+Example wown_tuple_member :
+  PAFC01.Proofs.node_at Q ["g"] wown = Some (NModel "T2" ["c"; "pos"]
+      [("c", NPrior 1); ("pos", NTuple [("pos_0", (0%nat, NConst 7)); ("pos_1", (1%nat, NPrior 0))])]) /\
+  occ 0 (walk Q wown) = [(["g"] ++ "pos" :: ["pos_1"], 0%nat)] /\ occ 1 (walk Q wown) = [(["g"] ++ "c" :: [], 1%nat)] /\
+  class_of Q 0 wown = Some "T2" /\ cfg_name ["g"; "pos"; "pos_1"] = Ok "pos_1" /\ class_of Q 1 wown = Some "T2".
+Proof. vm_compute. repeat split; reflexivity. Qed.
